@@ -6,7 +6,7 @@ symbolic: msg_type, dest_mod, dest_host, src_mod, src_host, nbytes, ids of the r
 from typing import List
 
 from engine import mgrworld as W
-from harness.common import sh, set_shard  # noqa: F401
+from harness.common import sh, set_shard, verdict, reached  # noqa: F401
 from pyrtma.validators import disable_message_validation
 
 M = W.M
@@ -90,7 +90,7 @@ def scenario(msg_type, dest_mod, dest_host, src_mod, src_host, nbytes, id0, id1,
                         return False, "payload slice is not [0:num_data_bytes]"
                 elif len(p[1]) != nbytes:
                     return False, "payload length differs"
-            elif p[3] != nbytes:
+            elif W.plen(p) != nbytes:
                 return False, "payload length differs"
         elif len(got) != 0:
             return False, "recipient %d must not receive the message" % k
@@ -115,7 +115,7 @@ def fwd(msg_type: int, dest_mod: int, dest_host: int, src_mod: int, src_host: in
     pre: _pre(msg_type, dest_mod, dest_host, src_mod, src_host, nbytes, id0, id1, id2)
     post: _
     """
-    return scenario(msg_type, dest_mod, dest_host, src_mod, src_host, nbytes, id0, id1, id2)[0]
+    return verdict(scenario(msg_type, dest_mod, dest_host, src_mod, src_host, nbytes, id0, id1, id2))
 
 
 def fwd_reach(msg_type: int, dest_mod: int, dest_host: int, src_mod: int, src_host: int, nbytes: int, id0: int, id1: int, id2: int) -> bool:
@@ -127,4 +127,4 @@ def fwd_reach(msg_type: int, dest_mod: int, dest_host: int, src_mod: int, src_ho
     pre: _pre(msg_type, dest_mod, dest_host, src_mod, src_host, nbytes, id0, id1, id2)
     post: _
     """
-    return not scenario(msg_type, dest_mod, dest_host, src_mod, src_host, nbytes, id0, id1, id2)[0]
+    return reached(scenario(msg_type, dest_mod, dest_host, src_mod, src_host, nbytes, id0, id1, id2))
